@@ -350,58 +350,50 @@ class eval_abs(object):
             ret_value = ret_value * a
         return ret_value
 
+    # division of the double-width quantity args[0]:args[1] by args[2], on
+    # plain integers (the modular types have no division)
     def eval_op_div(self, args, op_size, cast_int):
-        a = uint64(args[0])
-        b = uint64(args[1])
-        c = uint64(args[2])
+        hi, lo, c = [int(x) & mymaxuint[op_size] for x in args]
         if c == 0:
             raise ValueError('div by 0')
-        big = (a<<uint64(op_size))+b
-        ret_value =  big/c
-        if ret_value>mymaxuint[op_size]:raise ValueError('Divide Error')
+        ret_value = ((hi << op_size) + lo) // c
+        if ret_value > mymaxuint[op_size]:
+            raise ValueError('Divide Error')
         return ret_value
 
     def eval_op_rem(self, args, op_size, cast_int):
-        a = uint64(args[0])
-        b = uint64(args[1])
-        c = uint64(args[2])
+        hi, lo, c = [int(x) & mymaxuint[op_size] for x in args]
         if c == 0:
             raise ValueError('div by 0')
-        big = (a<<uint64(op_size))+b
-        ret_value =  big-c*(big/c)
-        if ret_value>mymaxuint[op_size]:raise ValueError('Divide Error')
-        return ret_value
+        big = (hi << op_size) + lo
+        if big // c > mymaxuint[op_size]:
+            raise ValueError('Divide Error')
+        return big % c
+
+    def idiv_quotient(self, args, op_size):
+        # signed division, the quotient truncated toward zero
+        hi, lo, c = [int(x) & mymaxuint[op_size] for x in args]
+        big = (hi << op_size) + lo
+        if big >> (2*op_size-1):
+            big -= 1 << (2*op_size)
+        if c >> (op_size-1):
+            c -= 1 << op_size
+        if c == 0:
+            raise ValueError('div by 0')
+        q = abs(big) // abs(c)
+        if (big < 0) != (c < 0):
+            q = -q
+        if not -(1 << (op_size-1)) <= q < (1 << (op_size-1)):
+            raise ValueError('Divide Error')
+        return big, c, q
 
     def eval_op_idiv(self, args, op_size, cast_int):
-        a = uint64(args[0])
-        b = uint64(args[1])
-        c = int64(tab_u2i[cast_int](args[2]))
-        if c == 0:
-            raise ValueError('div by 0')
-        big = (a<<uint64(op_size))+b
-        big = tab_intsize[op_size*2](big)
-        ret_value =  big/c
-        try:
-            ret_value = tab_u2i[cast_int](ret_value)
-        except ValueError:
-            raise ValueError('Divide Error')
-        return ret_value
+        big, c, q = self.idiv_quotient(args, op_size)
+        return q & mymaxuint[op_size]
 
     def eval_op_irem(self, args, op_size, cast_int):
-        a = uint64(args[0])
-        b = uint64(args[1])
-        c = int64(tab_u2i[cast_int](args[2]))
-        if c == 0:
-            raise ValueError('div by 0')
-        big = (a<<uint64(op_size))+b
-        big = tab_intsize[op_size*2](big)
-        ret_value =  big/c
-        try:
-            ret_value = tab_u2i[cast_int](ret_value)
-        except ValueError:
-            raise ValueError('Divide Error')
-        ret_value = big-ret_value*c
-        return ret_value
+        big, c, q = self.idiv_quotient(args, op_size)
+        return (big - q*c) & mymaxuint[op_size]
 
     def eval_op_mulhi(self, args, op_size, cast_int):
         a = uint64(args[0])
@@ -414,6 +406,20 @@ class eval_abs(object):
         b = uint64(args[1])
         ret_value =  (a*b) & mymaxuint[op_size]
         return ret_value
+
+    def signed_product(self, args, op_size):
+        a, b = [int(x) & mymaxuint[op_size] for x in args]
+        if a >> (op_size-1):
+            a -= 1 << op_size
+        if b >> (op_size-1):
+            b -= 1 << op_size
+        return a*b
+
+    def eval_op_imulhi(self, args, op_size, cast_int):
+        return (self.signed_product(args, op_size) >> op_size) & mymaxuint[op_size]
+
+    def eval_op_imullo(self, args, op_size, cast_int):
+        return self.signed_product(args, op_size) & mymaxuint[op_size]
 
     def eval_op_eq(self, args, op_size, cast_int):
         ret_value =  [0, 1][int(args[0] == args[1])]
@@ -539,6 +545,15 @@ class eval_abs(object):
                '/irem':eval_op_irem,
                '*hi':eval_op_mulhi,
                '*lo':eval_op_mullo,
+               # the operators the x86 semantics build
+               'div8':eval_op_div, 'div16':eval_op_div, 'div32':eval_op_div,
+               'rem8':eval_op_rem, 'rem16':eval_op_rem, 'rem32':eval_op_rem,
+               'idiv8':eval_op_idiv, 'idiv16':eval_op_idiv, 'idiv32':eval_op_idiv,
+               'irem8':eval_op_irem, 'irem16':eval_op_irem, 'irem32':eval_op_irem,
+               'umul16_hi':eval_op_mulhi, 'umul32_hi':eval_op_mulhi,
+               'umul16_lo':eval_op_mullo, 'umul32_lo':eval_op_mullo,
+               'imul16_hi':eval_op_imulhi, 'imul32_hi':eval_op_imulhi,
+               'imul16_lo':eval_op_imullo, 'imul32_lo':eval_op_imullo,
                '==':eval_op_eq,
                '<':eval_op_inf,
                '&':eval_op_and,
@@ -549,6 +564,8 @@ class eval_abs(object):
                '>>>':eval_op_rotr,
                '<<<c_rez':eval_op_rotl_wflag_rez,
                '<<<c_cf':eval_op_rotl_wflag_cf,
+               '>>>c_rez':eval_op_rotr_wflag_rez,
+               '>>>c_cf':eval_op_rotr_wflag_cf,
                '<<':eval_op_lshift,
                '>>':eval_op_rshift,
                'a>>':eval_op_arshift,
